@@ -165,9 +165,10 @@ Proof. vm_compute. reflexivity. Qed.
 Example vtt_to_ssa_needs_no_line_break_sequence :
   vs_trip (vs_one_line (s2l "a \N b"%string)) = Ok [(1000000000%Z, 2000000000%Z, [s2l "a"%string; s2l "b"%string])].
 Proof. vm_compute. reflexivity. Qed.
-(* a comma in the speaker name shifts the columns of the Dialogue row: the SSA file the conversion writes is rejected by
-   the SSA reader (a text loss for a text that both formats can express: see the notes) *)
-Example vtt_to_ssa_comma_in_voice_unreadable :
+(* a comma in the speaker name would shift the columns of the Dialogue row (before the library fix "SSA writer writes a
+   comma of the speaker name as a semicolon" the file the conversion wrote was rejected by the SSA reader: every cue lost);
+   the writer now emits Smith; John and the text survives *)
+Example vtt_to_ssa_comma_in_voice_readable :
   vs_trip (mkVdoc [mkVitem 0 1000000000%Z 2000000000%Z [] None None None [mkVline [mkVrun (s2l "text"%string) None 0%Z None] (s2l "Smith, John"%string)]] [] [] None)
-  = Err EParse.
+  = Ok [(1000000000%Z, 2000000000%Z, [s2l "text"%string])].
 Proof. vm_compute. reflexivity. Qed.
